@@ -87,6 +87,16 @@ def families(tier):
                                 params=dict(edges=edges, entry=entry),
                                 scn=dict(buses={b: {} for b in names}, order=order, handlers=hs, main=[('disp', entry, 'P', 'ff')], actors=[], forwards=real,
                                          fwd_first=fwd_first, settle=3.0)))
+    # bus names that contain one another ('Bus' / 'BusX' / 'XBus'): path membership must be by name, not by substring
+    nn = ['Bus', 'BusX', 'XBus']
+    for sname, edges0 in shapes.items():
+        edges = [(nn[names.index(a)], nn[names.index(b)]) for a, b in edges0]
+        for entry, fwd_first in itertools.product(nn, (False, True)):
+            hs = [dict(bus=b, pat='P', name='probe' + b, prog=[('pause',), ('ret', b)]) for b in nn]
+            for order in (nn, nn[::-1]):
+                out.append(dict(prop='C07', family='c07.name_containment', id=f'c07/names-{sname}-{entry}-f{int(fwd_first)}-o{"".join(x[0] + x[-1] for x in order)}', cfg=cfg2,
+                                params=dict(edges=edges, entry=entry),
+                                scn=dict(buses={b: {} for b in nn}, order=order, handlers=hs, main=[('disp', entry, 'P', 'ff')], actors=[], forwards=edges, fwd_first=fwd_first, settle=3.0)))
     # a chain of nested dispatches 4-5 levels deep (a different event type and handler at every level, nothing recurses), every level
     # passing through a bus that forwards to the next one: forwarding must work at any nesting depth
     for mode, topo, depth in itertools.product(('ff', 'await'), ('AB', 'ABC', 'AB_BA'), (4, 5)):
